@@ -1,16 +1,17 @@
 #!/bin/sh
-# Extract the models and build build/bin/modelrun.  Run from anywhere.
+# usage: build.sh <name>     e.g. build.sh c20
+# Extracts coq/Extract/<NAME>.v (upper-cased name) in build/extract/<name> and links
+# build/bin/modelrun-<name> from the extracted modules + common.ml + drv_<name>.ml + main.ml.
 set -e
 V=/verif
-B=$V/build/extract
+n=$1
+N=$(echo "$n" | tr a-z A-Z)
+B=$V/build/extract/$n
 mkdir -p $B $V/build/bin
 cd $B
 rm -f *.ml *.mli *.cm* *.o
-coqc -w -all -Q $V/coq HV $V/coq/Extract/Extract.v > extract.log 2>&1 || { cat extract.log; exit 1; }
-cp $V/extract/*.ml .
+coqc -w -all -Q $V/coq HV -o $B/$N.vo $V/coq/Extract/$N.v > extract.log 2>&1 || { cat extract.log; exit 1; }
+cp $V/extract/common.ml $V/extract/main.ml $V/extract/drv_$n.ml .
 EXTRACTED=$(ls *.ml | grep -v -e '^common.ml$' -e '^drv_' -e '^main.ml$')
 ORDER=$(ocamlfind ocamldep -sort $EXTRACTED $(ls *.mli))
-ML=$(for f in $ORDER; do case $f in *.ml) echo $f;; esac; done)
-MLI=$(for f in $ORDER; do case $f in *.mli) echo $f;; esac; done)
-ocamlfind ocamlopt -w -a -O2 -o $V/build/bin/modelrun $MLI $ML common.ml $(ls drv_*.ml) main.ml 2>build.log || \
-ocamlfind ocamlopt -w -a -o $V/build/bin/modelrun $ORDER common.ml $(ls drv_*.ml) main.ml > build.log 2>&1 || { cat build.log; exit 1; }
+ocamlfind ocamlopt -w -a -o $V/build/bin/modelrun-$n $ORDER common.ml drv_$n.ml main.ml > build.log 2>&1 || { cat build.log; exit 1; }
